@@ -431,7 +431,7 @@ func goConnectivity(cl string) (map[string]string, string) {
 		seen[h] = true
 		o, err := repo.Storer.EncodedObject(plumbing.AnyObject, h)
 		if err != nil {
-			return fmt.Errorf("missing object %s", h)
+			return fmt.Errorf("missing commit %s", h) // a reference target or a parent above the shallow boundary
 		}
 		switch o.Type() {
 		case plumbing.TagObject:
@@ -483,6 +483,19 @@ func expHex(v []any, ids map[string]string) string {
 }
 
 type fDiff struct{ class, what string }
+
+// missingKind: which kind of object of the required closure is absent (commit, tree, blob, tag)
+func missingKind(conn string) string {
+	for _, k := range []string{"commit", "tag", "tree", "blob"} {
+		if strings.Contains(conn, "missing "+k) {
+			return k
+		}
+	}
+	if strings.Contains(conn, "invalid sha1 pointer") {
+		return "commit" // a reference whose target is absent
+	}
+	return "other"
+}
 
 // compareFetch: observed client state vs the spec's post-state of the step.
 func compareFetch(st fStep, ids map[string]string, refs map[string]string, shallow []string, conn string) []fDiff {
@@ -538,7 +551,7 @@ func compareFetch(st fStep, ids map[string]string, refs map[string]string, shall
 		ds = append(ds, fDiff{cls, fmt.Sprintf("shallow file has %v, specification says %v", got, st.Shallow)})
 	}
 	if conn != "" {
-		ds = append(ds, fDiff{"not-connected", "the client repository is not connected: " + conn})
+		ds = append(ds, fDiff{"not-connected:" + missingKind(conn), "the client repository is not connected: " + conn})
 	}
 	return ds
 }
